@@ -27,7 +27,7 @@ intro = ("### 0.6 Seeded changes and which checks catch them\n\n"
          "the change; existing tests pass) and the registered quick check was run against it (`VERIF_REPO=<worktree>`). Kept under\n"
          "`seeded/<id>/` (patch.diff, demo.py, NOTES.md, meta.json); `tools/runmutants.py` re-runs them. Where a change was first\n"
          "missed, the check was strengthened (listed after the table) and the run repeated; the table shows the final state.\n"
-         "Six rounds were run with different emphasis (the prompts are `tools/PROMPT_MUTANT*.txt`); `tools/recheck_seeded.py`\n"
+         "Seven rounds were run with different emphasis (the prompts are `tools/PROMPT_MUTANT*.txt`); `tools/recheck_seeded.py`\n"
          "re-runs every kept change (must be reported) and every kept refactoring of section 0.7 (must stay quiet) against the current checks -\n"
          "its last full run: every change that still applies to the repaired tree is reported, every refactoring is quiet.\n\n")
 extra = (V / "seeded" / "STRENGTHENED.md").read_text() if (V / "seeded" / "STRENGTHENED.md").exists() else ""
